@@ -165,8 +165,11 @@ def other_spec(kind: str, cur: RefAction, ishape: tuple):
         labels[d] = list(base)
     if kind == "same":
         return dims, labels, shape
-    def shifted(vals):  # different labels of the same type (mixed-type indexes are an xarray quirk, not our subject)
-        return [(v + 100) if isinstance(v, (int, float)) and not isinstance(v, bool) else f"o{v}" for v in vals]
+    def shifted(vals):
+        # different labels of the same type (mixed-type indexes are an xarray quirk, not our subject), and fresh ones:
+        # batched reductions select by label, so coordinate values along a dimension must stay unique
+        n = len(vals)
+        return [(v + 1000 * n) if isinstance(v, (int, float)) and not isinstance(v, bool) else f"j{n}_{v}" for v in vals]
 
     if kind == "diffcoords":  # same shape, different coordinate values along every dimension
         for d in dims:
